@@ -79,7 +79,9 @@ pub(super) fn create_transport_costs(
                 )
             };
 
-            Ok(MatrixData::new(profile, timestamp.map(|t| parse_time(&t)), durations, distances))
+            let timestamp = timestamp.map(|t| crate::parse_time_safe(&t)).transpose()?;
+
+            Ok(MatrixData::new(profile, timestamp, durations, distances))
         })
         .collect::<Result<Vec<_>, GenericError>>()?;
 
